@@ -39,7 +39,7 @@ META = {
     ],
     "bounds": {"template": "2 prefixes (symbol/alias), 7 units (base, chain, compound with '_' symbol placeholder and alias, offset unit), @alias, derived dimension, group with 'using', system, context with parameter and redefinition, @defaults", "permutations": "quick: 24 seeded + reversed; thorough: all 720 of 6 movable lines", "numbers": "all positive rationals (symbolic)"},
     "enumerated_axes": [{"axis": "line permutations", "exhaustive": False}, {"axis": "layout variants", "exhaustive": False}, {"axis": "loading paths", "exhaustive": True}, {"axis": "ill-formed definition kinds", "exhaustive": False}],
-    "outside_claim": ["arbitrary definition files: the text structure is enumerated from templates", "@import (exercised by the bundled files only)", "the bundled files themselves are C02's H02.a / C20"],
+    "outside_claim": ["arbitrary definition files: the text structure is enumerated from templates", "the bundled files themselves are C02's H02.a / C20"],
     "assumptions": ["hash_mode=mixed"],
 }
 
@@ -225,6 +225,37 @@ def h_loading_paths(eng, path):
                     ureg.define(ln)
             ureg._after_init.__func__  # noqa: B018 - not called: settings below are applied by hand
             ureg.default_system = "S"
+        elif path == "cache-import-edit":
+            # a root file that imports a second file; the on-disk cache is warm; then only the
+            # imported file is edited: the next load must answer from the new text
+            L = eng.lit
+            sf2 = eng.real("sf2")
+            eng.assume(sf2 > 0)
+            eng.assume(Not(Eq(sf2, t.sf)))
+            root = os.path.join(tmp, "root.txt")
+            imp = os.path.join(tmp, "imported.txt")
+            mov = t.movable()
+            with open(root, "w", encoding="utf-8") as f:
+                f.write("\n".join(t.head() + ["@import imported.txt"] + t.tail()) + "\n")
+            with open(imp, "w", encoding="utf-8") as f:
+                f.write("\n".join(mov) + "\n")
+            cache = os.path.join(tmp, "cache")
+            first = pint.UnitRegistry(root, non_int_type=eng.ntype, cache_folder=cache, on_redefinition="raise")
+            t.check(first, "import-cold")
+            again = pint.UnitRegistry(root, non_int_type=eng.ntype, cache_folder=cache, on_redefinition="raise")
+            eng.prove(Eq(again.get_root_units("ft")[0], t.si * t.sf), "import-warm:root-factor")
+            # edit the imported file only
+            mov2 = [ln if not ln.startswith("ft ") else f"ft = {L(sf2)} * inch" for ln in mov] + ["furl = 10 * ft"]
+            with open(imp, "w", encoding="utf-8") as f:
+                f.write("\n".join(mov2) + "\n")
+            edited = pint.UnitRegistry(root, non_int_type=eng.ntype, cache_folder=cache, on_redefinition="raise")
+            xx = eng.real("x_edit")
+            eng.prove(Eq(edited.Quantity(xx, "ft").to("m").magnitude, xx * t.si * sf2), "import-edited:conversion")
+            eng.prove(Eq(edited.get_root_units("ft")[0], t.si * sf2), "import-edited:root-factor")
+            eng.prove(Eq(edited.get_root_units("yard")[0], 3 * t.si * sf2), "import-edited:dependent-root-factor")
+            eng.prove("furl" in {str(u) for u in edited.get_compatible_units("m", "root")}, "import-edited:new-unit-listed")
+            eng.prove(Eq(edited.Quantity(xx, "furl").to("inch").magnitude, xx * 10 * sf2), "import-edited:new-unit")
+            return
         elif path in ("cache-cold", "cache-warm"):
             fn = os.path.join(tmp, "defs.txt")
             with open(fn, "w", encoding="utf-8") as f:
@@ -236,6 +267,56 @@ def h_loading_paths(eng, path):
                 ureg = pint.UnitRegistry(fn, non_int_type=eng.ntype, cache_folder=cache, on_redefinition="raise")
             eng.prove(len(os.listdir(cache)) > 0, "disk-cache-written")
         t.check(ureg, path)
+    finally:
+        shutil.rmtree(tmp, ignore_errors=True)
+
+
+def h_decimal_literals(eng, path):
+    """decimal literals that no binary float represents exactly are read exactly in a registry of
+    exact numbers -- wherever a number can be written (factor, prefix, offset, exponent, context
+    default, relation, redefinition inside a context)"""
+    F = Fraction
+    lines = [
+        "m = [length]", "s = [time]", "kel = [temp]",
+        "cc- = 1e-2 = c-", "dd- = 0.1",
+        "inch = 0.0254 * m", "ft = 0.3048 * m", "league = 4.828032e3 * m", "thou = inch / 1e3",
+        "root3 = m ** 0.3",
+        "degA = 1.8 * kel; offset: 255.372",
+        "@context(n=1.33) cx",
+        "    [length] -> [time]: value * 3.3356409519815204e-9 * n * s / m",
+        "    ft = 0.3 * m",
+        "@end",
+    ]  # fmt: skip
+    tmp = tempfile.mkdtemp(prefix="pv_c10_")
+    try:
+        if path == "lines":
+            ureg = pint.UnitRegistry(lines, non_int_type=eng.ntype, on_redefinition="raise")
+        elif path == "file":
+            fn = os.path.join(tmp, "d.txt")
+            with open(fn, "w", encoding="utf-8") as f:
+                f.write("\n".join(lines) + "\n")
+            ureg = pint.UnitRegistry(fn, non_int_type=eng.ntype, on_redefinition="raise")
+        else:
+            ureg = pint.UnitRegistry(None, non_int_type=eng.ntype, on_redefinition="raise")
+            ureg.load_definitions(lines)
+            ureg._build_cache()
+        x = eng.real("x")
+        Qy = ureg.Quantity
+        P = eng.prove
+        P(Eq(Qy(x, "inch").to("m").magnitude, x * F("0.0254")), f"{path}:factor")
+        P(Eq(Qy(x, "league").to("m").magnitude, x * F("4828.032")), f"{path}:exponent-notation")
+        P(Eq(Qy(x, "thou").to("m").magnitude, x * F("0.0000254")), f"{path}:divisor")
+        P(Eq(Qy(x, "ccm").to("m").magnitude, x * F("0.01")), f"{path}:prefix")
+        P(Eq(Qy(x, "ddinch").to("m").magnitude, x * F("0.00254")), f"{path}:prefix-decimal")
+        P(Eq(Qy(x, "degA").to("kel").magnitude, x * F("1.8") + F("255.372")), f"{path}:scale-and-offset")
+        P(ureg.parse_units("root3")._units == ureg.UnitsContainer({"root3": 1}) and dict(ureg.get_root_units("root3")[1]._units) == {"m": eng.num(F("0.3"))}, f"{path}:fractional-exponent")
+        P(Eq(Qy(x, "m").to("s", "cx").magnitude, x * F("3.3356409519815204e-9") * F("1.33")), f"{path}:context-default-and-relation")
+        nn = eng.real("nn")
+        P(Eq(Qy(x, "m").to("s", "cx", n=nn).magnitude, x * F("3.3356409519815204e-9") * nn), f"{path}:context-explicit-parameter")
+        with ureg.context("cx"):
+            P(Eq(Qy(x, "ft").to("m").magnitude, x * F("0.3")), f"{path}:context-redefinition")
+        P(Eq(Qy(x, "ft").to("m").magnitude, x * F("0.3048")), f"{path}:redefinition-scoped")
+        P(all(type(v) is eng.ntype for v in (ureg._units["inch"].converter.scale, ureg._prefixes["cc"].converter.scale, ureg._contexts["cx"].defaults["n"])), f"{path}:numeric-types")
     finally:
         shutil.rmtree(tmp, ignore_errors=True)
 
@@ -412,10 +493,12 @@ def cases(tier, seed):
         out.append(Case("H10.b", "perm:" + "".join(map(str, p)), M, "h_interpret", {"perm": list(p), "layout": "plain"}, opts=opts, validate=0, weight=5.0))
     for p in rnd.sample(perms, 6 if not big else 40):
         out.append(Case("H10.b", "perm-units-first:" + "".join(map(str, p)), M, "h_interpret", {"perm": list(p), "layout": "units-first"}, opts=opts, validate=0, weight=5.0))
-    for path in ("file", "load_definitions", "define", "cache-cold", "cache-warm"):
+    for path in ("file", "load_definitions", "define", "cache-cold", "cache-warm", "cache-import-edit"):
         out.append(Case("H10.c", path, M, "h_loading_paths", {"path": path}, opts=opts, validate=1 if path in ("file", "load_definitions") else 0, weight=6.0))
     for kind in ILL_FORMED:
         out.append(Case("H10.e", kind, M, "h_ill_formed", {"kind": kind}, opts=opts, validate=1))
+    for path in ("lines", "file", "load_definitions"):
+        out.append(Case("H10.a", f"decimal-literals:{path}", M, "h_decimal_literals", {"path": path}, opts=opts, validate=1))
     for k in range(400 if big else 24):
         out.append(Case("H10.f", f"dag-{seed}-{k:03d}", M, "h_random_dag", {"k": seed * 1000 + k}, opts=opts, validate=1, weight=2.0))
     return out
